@@ -1720,6 +1720,7 @@ impl<'a> AstResolver<'a> {
     ) -> ResolutionResult<()> {
         log::debug!("resolving include of world `{world}`");
         let mut replacements = HashMap::new();
+        let mut used = HashSet::new();
         for item in &include.with {
             let prev = replacements.insert(item.from.string, item);
             if prev.is_some() {
@@ -1766,7 +1767,8 @@ impl<'a> AstResolver<'a> {
                 ty,
                 name,
                 ExternKind::Import,
-                &mut replacements,
+                &replacements,
+                &mut used,
             )?;
             ty.imports.entry(name).or_insert(*item);
         }
@@ -1778,12 +1780,17 @@ impl<'a> AstResolver<'a> {
                 ty,
                 name,
                 ExternKind::Export,
-                &mut replacements,
+                &replacements,
+                &mut used,
             )?;
             ty.exports.entry(name).or_insert(*item);
         }
 
-        if let Some(missing) = replacements.values().next() {
+        if let Some(missing) = include
+            .with
+            .iter()
+            .find(|item| !used.contains(item.from.string))
+        {
             return Err(Error::MissingWorldInclude {
                 world: include.world.name().to_owned(),
                 name: missing.from.string.to_owned(),
@@ -1799,16 +1806,21 @@ impl<'a> AstResolver<'a> {
             ty: &mut World,
             name: &str,
             kind: ExternKind,
-            replacements: &mut HashMap<&str, &ast::WorldIncludeItem<'a>>,
+            replacements: &HashMap<&str, &ast::WorldIncludeItem<'a>>,
+            used: &mut HashSet<&'a str>,
         ) -> ResolutionResult<String> {
             // Check for a id, which doesn't get replaced.
             if name.contains(':') {
                 return Ok(name.to_owned());
             }
 
+            // A replacement applies to both an import and an export of that name.
             let (name, span) = replacements
-                .remove(name)
-                .map(|i| (i.to.string, i.to.span))
+                .get(name)
+                .map(|i| {
+                    used.insert(i.from.string);
+                    (i.to.string, i.to.span)
+                })
                 .unwrap_or_else(|| (name, include.world.span()));
 
             let exists = if kind == ExternKind::Import {
